@@ -90,6 +90,48 @@ func (p *pkg) env(ext map[string]constant.Value) *env {
 	return e
 }
 
+// withLocals returns an environment that also knows the constants and once-assigned variables declared inside
+// body (`const k = …`, `var k = …`, `k := …`), so that naming a sub-expression does not hide its value.
+func (e *env) withLocals(body ast.Node) *env {
+	ne := &env{decls: map[string]ast.Expr{}, ext: e.ext, iota: e.iota}
+	for k, v := range e.decls {
+		ne.decls[k] = v
+	}
+	count := map[string]int{}
+	ast.Inspect(body, func(n ast.Node) bool {
+		switch v := n.(type) {
+		case *ast.DeclStmt:
+			if gd, ok := v.Decl.(*ast.GenDecl); ok && (gd.Tok == token.CONST || gd.Tok == token.VAR) {
+				for _, s := range gd.Specs {
+					vs := s.(*ast.ValueSpec)
+					for j, id := range vs.Names {
+						if j < len(vs.Values) {
+							ne.decls[id.Name] = vs.Values[j]
+							count[id.Name]++
+						}
+					}
+				}
+			}
+		case *ast.AssignStmt:
+			for j, l := range v.Lhs {
+				if id, ok := l.(*ast.Ident); ok && len(v.Lhs) == len(v.Rhs) {
+					if v.Tok == token.DEFINE {
+						ne.decls[id.Name] = v.Rhs[j]
+					}
+					count[id.Name]++
+				}
+			}
+		}
+		return true
+	})
+	for k, c := range count {
+		if c > 1 {
+			delete(ne.decls, k) // re-assigned: not a name for one value
+		}
+	}
+	return ne
+}
+
 func (e *env) eval(x ast.Expr, depth int) constant.Value {
 	if depth > 50 || x == nil {
 		return constant.MakeUnknown()
